@@ -265,7 +265,7 @@ mod verif_kani {
         if all_hex {
             assert!(out == d, "hex::decode_to_slice: decoded bytes");
         }
-        kani::cover!(res.is_ok());
+        kani::cover!(L != 2 * N || res.is_ok());
         kani::cover!(res.is_err());
     }
     #[kani::proof]
